@@ -6,14 +6,19 @@ and folds only moves values around, so it preserves the bound: an action cannot 
 -/
 namespace PhpVerif
 
+/-- the token a position boundary refers to -/
+def PRef.toks : PRef → List Nat
+  | .tok i => [i]
+  | .absent => []
+
 mutual
-/-- the tokens of a value, in field order -/
+/-- the tokens of a value, in field order — those it holds and those its positions refer to -/
 def V.toks : V → List Nat
   | .tok i => [i]
   | .node _ _ fs => toksL fs
   | .list xs => toksL xs
   | .nil => []
-  | .pos _ _ _ _ => []
+  | .pos s e => s.toks ++ e.toks
   | .bytes _ _ => []
   | .bad => []
 def toksL : List V → List Nat
@@ -39,7 +44,12 @@ theorem Bnd_node {n k u : Nat} {fs : List V} : Bnd n (.node k u fs) ↔ BndL n f
 theorem Bnd_list {n : Nat} {xs : List V} : Bnd n (.list xs) ↔ BndL n xs := by simp [Bnd, BndL, V.toks]
 theorem Bnd_nil (n : Nat) : Bnd n .nil := by intro i h; simp [V.toks] at h
 theorem Bnd_bad (n : Nat) : Bnd n .bad := by intro i h; simp [V.toks] at h
-theorem Bnd_pos (n : Nat) (a b c d : Int) : Bnd n (.pos a b c d) := by intro i h; simp [V.toks] at h
+theorem Bnd_pos {n : Nat} {a b : PRef} (ha : ∀ i ∈ a.toks, i < n) (hb : ∀ i ∈ b.toks, i < n) : Bnd n (.pos a b) := by
+  intro i h
+  simp only [V.toks, List.mem_append] at h
+  cases h with
+  | inl x => exact ha i x
+  | inr x => exact hb i x
 theorem Bnd_bytes (n : Nat) (p : List Nat) (j : Nat) : Bnd n (.bytes p j) := by intro i h; simp [V.toks] at h
 theorem Bnd_tok {n j : Nat} (h : j < n) : Bnd n (.tok j) := by intro i hi; simp [V.toks] at hi; omega
 
@@ -106,42 +116,115 @@ theorem BndL_setLastV {n : Nat} {x : V} (hx : Bnd n x) : ∀ {l : List V}, BndL 
     simp only [setLastV]
     exact BndL_cons.mpr ⟨(BndL_cons.mp h).1, BndL_setLastV hx (BndL_cons.mp h).2⟩
 
-theorem Bnd_evalPos (n : Nat) (toks : Array TokInfo) (combs : List PosComb) (comb : Nat) (args : List V) :
+theorem nodeStart_bnd {n : Nat} {v : V} {r : PRef} (hv : Bnd n v) (h : nodeStart v = some r) : ∀ i ∈ r.toks, i < n := by
+  unfold nodeStart at h
+  split at h
+  · cases h; intro i hi; simp [PRef.toks] at hi
+  · rename_i k u s e rest
+    cases h
+    intro i hi
+    exact hv i (by simp [V.toks, toksL, hi])
+  · cases h; intro i hi; simp [PRef.toks] at hi
+  · cases h
+
+theorem nodeEnd_bnd {n : Nat} {v : V} {r : PRef} (hv : Bnd n v) (h : nodeEnd v = some r) : ∀ i ∈ r.toks, i < n := by
+  unfold nodeEnd at h
+  split at h
+  · cases h; intro i hi; simp [PRef.toks] at hi
+  · rename_i k u s e rest
+    cases h
+    intro i hi
+    exact hv i (by simp [V.toks, toksL, hi])
+  · cases h; intro i hi; simp [PRef.toks] at hi
+  · cases h
+
+theorem tokRef_eq {toks : Array TokKey} {i : Nat} {r : PRef} (h : tokRef toks i = some r) : r = .tok i := by
+  unfold tokRef at h
+  split at h
+  · split at h
+    · cases h; rfl
+    · cases h
+  · cases h
+
+theorem startOf_bnd {n : Nat} (toks : Array TokKey) (sort : Nat) {v : V} {r : PRef} (hv : Bnd n v)
+    (h : startOf toks sort v = some r) : ∀ i ∈ r.toks, i < n := by
+  unfold startOf at h
+  split at h
+  · split at h
+    · rename_i j
+      have := tokRef_eq h
+      subst this
+      intro i hi
+      exact hv i (by simpa [V.toks, PRef.toks] using hi)
+    · cases h
+  · split at h
+    · exact nodeStart_bnd hv h
+    · split at h
+      · cases h; intro i hi; simp [PRef.toks] at hi
+      · cases h; intro i hi; simp [PRef.toks] at hi
+      · rename_i x rest
+        exact nodeStart_bnd (BndL_mem (Bnd_list.mp hv) (List.mem_cons_self ..)) h
+      · cases h
+
+theorem endOf_bnd {n : Nat} (toks : Array TokKey) (sort : Nat) {v : V} {r : PRef} (hv : Bnd n v)
+    (h : endOf toks sort v = some r) : ∀ i ∈ r.toks, i < n := by
+  unfold endOf at h
+  split at h
+  · split at h
+    · rename_i j
+      have := tokRef_eq h
+      subst this
+      intro i hi
+      exact hv i (by simpa [V.toks, PRef.toks] using hi)
+    · cases h
+  · split at h
+    · exact nodeEnd_bnd hv h
+    · split at h
+      · cases h; intro i hi; simp [PRef.toks] at hi
+      · rename_i l
+        split at h
+        · cases h; intro i hi; simp [PRef.toks] at hi
+        · rename_i x hx
+          exact nodeEnd_bnd (BndL_mem (Bnd_list.mp hv) (lastV_mem hx)) h
+      · cases h
+
+theorem Bnd_evalPos (n : Nat) (toks : Array TokKey) (combs : List PosComb) (comb : Nat) (args : List V) (ha : BndL n args) :
     Bnd n (evalPos toks combs comb args) := by
   unfold evalPos
   split
   · exact Bnd_bad n
   · simp only
     split
-    · exact Bnd_pos n _ _ _ _
+    · rename_i s e hs he
+      exact Bnd_pos (startOf_bnd toks _ (Bnd_getElem? ha _) hs) (endOf_bnd toks _ (Bnd_getElem? ha _) he)
     · exact Bnd_bad n
 
-theorem Bnd_chainStep {n : Nat} (toks : Array TokInfo) (combs : List PosComb) (tbl : List (Nat × Nat)) {acc x : V}
+theorem Bnd_chainStep {n : Nat} (toks : Array TokKey) (combs : List PosComb) (tbl : List (Nat × Nat)) {acc x : V}
     (ha : Bnd n acc) (hx : Bnd n x) : Bnd n (chainStep toks combs tbl acc x) := by
   unfold chainStep
   split
   · split
-    · exact Bnd_node.mpr (BndL_setNth (Bnd_evalPos n _ _ _ _) _ (BndL_setNth ha _ (Bnd_node.mp hx)))
+    · exact Bnd_node.mpr (BndL_setNth (Bnd_evalPos n _ _ _ _ (BndL_cons.mpr ⟨ha, BndL_cons.mpr ⟨hx, BndL_nil n⟩⟩)) _ (BndL_setNth ha _ (Bnd_node.mp hx)))
     · exact ha
   · exact ha
 
-theorem Bnd_nestStep {n : Nat} (toks : Array TokInfo) (combs : List PosComb) (tbl : List (Nat × Nat)) {x inner : V}
+theorem Bnd_nestStep {n : Nat} (toks : Array TokKey) (combs : List PosComb) (tbl : List (Nat × Nat)) {x inner : V}
     (hx : Bnd n x) (hi : Bnd n inner) : Bnd n (nestStep toks combs tbl x inner) := by
   unfold nestStep
   split
   · split
-    · exact Bnd_node.mpr (BndL_setNth (Bnd_evalPos n _ _ _ _) _ (BndL_setNth hi _ (Bnd_node.mp hx)))
+    · exact Bnd_node.mpr (BndL_setNth (Bnd_evalPos n _ _ _ _ (BndL_cons.mpr ⟨hx, BndL_cons.mpr ⟨hi, BndL_nil n⟩⟩)) _ (BndL_setNth hi _ (Bnd_node.mp hx)))
     · exact Bnd_bad n
   · exact Bnd_bad n
 
-theorem Bnd_foldl_chain {n : Nat} (toks : Array TokInfo) (combs : List PosComb) (tbl : List (Nat × Nat)) :
+theorem Bnd_foldl_chain {n : Nat} (toks : Array TokKey) (combs : List PosComb) (tbl : List (Nat × Nat)) :
     ∀ (xs : List V) (acc : V), BndL n xs → Bnd n acc → Bnd n (xs.foldl (chainStep toks combs tbl) acc)
   | [], acc, _, ha => ha
   | x :: r, acc, hx, ha => by
     simp only [List.foldl]
     exact Bnd_foldl_chain toks combs tbl r _ (BndL_cons.mp hx).2 (Bnd_chainStep toks combs tbl ha (BndL_cons.mp hx).1)
 
-theorem Bnd_foldr_nest {n : Nat} (toks : Array TokInfo) (combs : List PosComb) (tbl : List (Nat × Nat)) :
+theorem Bnd_foldr_nest {n : Nat} (toks : Array TokKey) (combs : List PosComb) (tbl : List (Nat × Nat)) :
     ∀ (xs : List V) (inner : V), BndL n xs → Bnd n inner → Bnd n (xs.foldr (nestStep toks combs tbl) inner)
   | [], inner, _, hi => hi
   | x :: r, inner, hx, hi => by
@@ -254,7 +337,7 @@ theorem Bnd_evalTm {n : Nat} {c : ECtx} (hc : CtxBnd n c) : ∀ (t : Tm), Bnd n 
     split
     · exact Bnd_bytes n _ _
     · exact Bnd_bad n
-  | .pos comb args => by simp only [evalTm]; exact Bnd_evalPos n _ _ _ _
+  | .pos comb args => by simp only [evalTm]; exact Bnd_evalPos n _ _ _ _ (BndL_evalTms hc args)
   | .chain acc l tbl => by
     simp only [evalTm]
     have iha := Bnd_evalTm hc acc
